@@ -378,6 +378,9 @@ impl C16 {
     fn list_case(&self, cx: &mut Cx<'_>, r: &mut Rng) {
         let tags = typed::tag_names();
         let t = r.pick(&tags).clone();
+        // (A hand-built `Tag::Other` spelling a KNOWN name in another letter case is outside the variant's documented
+        // contract - "the raw tag string when it doesn't match any other variants" - and is not used: with it even the
+        // unchanged `grouped_values()` finds nothing, because MPD answers with its own spelling of the name.)
         let tt = Tag::try_from(t.as_str()).unwrap();
         // plain
         let n = r.below(8);
